@@ -79,6 +79,30 @@
 //! `differs-from-fresh-instance:forwarded-os-repeat`; a panic of the real code is reported by the
 //! runner's crash oracle (`panic:<file>:<message>`).
 
+//!
+//! Failed-first sessions: the first request of a session selects a file that holds a broken text
+//! (parsed up to its error: whatever the parser changes outside its result before it fails has been
+//! changed), the file is repaired, a second request (absolute: lrld-num / lrld-file) reloads a valid
+//! file and must equal a fresh instance of it, like every later episode.
+//!
+//! Key names: what a key name means is decided by a process-global table of the parser that a
+//! `deflocalkeys-<platform>` block rewrites; a reload parses the new file in a process that has
+//! already parsed the previous one(s). Half of the cases (stream "localkeys", helper c15_lk.rs) give
+//! the old configuration and every file, independently, a `deflocalkeys-linux` block or none
+//! (old block -> new file without one, none -> block, another block, the same block, none -> none),
+//! blocks for other platforms that must not matter, extra defsrc entries and first-layer actions
+//! written with three names of the case (default names such as `-` `;` `[`, built-in names `0` `9`)
+//! and with names of the block's own; blocks redefine the names of the case to other physical keys.
+//! Continuations get a probe piece that taps (some with an OS repeat, some overlapping) every
+//! physical key that any configuration of the case can mean by one of the names. Every instance
+//! that stands for a newly started process (the run itself, the no-request twin, every fresh
+//! instance) is created after the table has been put back to its defaults through the parser's
+//! public `replace_custom_str_oscode_mapping(&{})`; the fresh instances are created after the run
+//! with the reload has ended, so they do not disturb it. A difference from the fresh instance in an
+//! episode whose reloaded file uses a name that an earlier configuration of the process gave
+//! another meaning is the class
+//! `differs-from-fresh-instance:key-name-meant-something-else-before-the-reload`.
+
 use super::c07::dcommon::{drain_into, kind_class};
 use crate::core::rng::Rng;
 use crate::core::sim::{first_diff, osc, render_hist, Ev, Out, OutKind, Sim};
@@ -87,6 +111,10 @@ use kanata_tcp_protocol::ServerMessage;
 use serde_json::{json, Value};
 use std::path::{Path, PathBuf};
 use std::sync::mpsc::{Receiver, SyncSender};
+
+#[path = "c15_lk.rs"]
+mod c15_lk;
+use c15_lk::LkSpec;
 
 pub struct C15Check;
 pub static C15: C15Check = C15Check;
@@ -246,6 +274,9 @@ struct CfgSpec {
     extra: Vec<(String, Vec<String>)>,
     /// action of LAYER_KEY on the first layer (transparent on the others)
     lkey: String,
+    /// key-name dimension: deflocalkeys blocks, defsrc entries and first-layer actions written with
+    /// the names of the case (empty: the file has nothing of it)
+    lk: LkSpec,
 }
 
 impl CfgSpec {
@@ -282,21 +313,28 @@ fn reload_row(num: usize, file: &str, noop: bool) -> String {
 }
 
 fn cfg_text(s: &CfgSpec, row: &str) -> String {
-    let mut t = String::from("(defcfg process-unmapped-keys yes");
+    let mut t = String::new();
+    if !s.lk.block_last {
+        t.push_str(&c15_lk::blocks_text(&s.lk));
+    }
+    t.push_str("(defcfg process-unmapped-keys yes");
     for (n, v) in &s.opts {
         t.push_str(&format!(" {n} {v}"));
     }
     t.push_str(")\n");
-    t.push_str(&format!("(defsrc {} {LAYER_KEY} {})\n", ACT_KEYS.join(" "), RELOAD_KEYS.join(" ")));
+    let lk_src: String = s.lk.src.iter().map(|n| format!(" {n}")).collect();
+    let lk_l0: String = s.lk.acts.iter().map(|a| format!(" {a}")).collect();
+    let lk_ln: String = s.lk.src.iter().map(|_| " _").collect();
+    t.push_str(&format!("(defsrc {} {LAYER_KEY} {}{lk_src})\n", ACT_KEYS.join(" "), RELOAD_KEYS.join(" ")));
     t.push_str("(defvirtualkeys");
     for (n, a) in &s.vkeys {
         t.push_str(&format!(" {n} {a}"));
     }
     t.push_str(")\n");
-    t.push_str(&format!("(deflayer {}\n  {}\n  {}\n  {row})\n", s.l0, s.acts0.join("\n  "), s.lkey));
-    t.push_str(&format!("(deflayer {}\n  {}\n  _\n  {row})\n", s.l1, s.acts1.join("\n  ")));
+    t.push_str(&format!("(deflayer {}\n  {}\n  {}\n  {row}{lk_l0})\n", s.l0, s.acts0.join("\n  "), s.lkey));
+    t.push_str(&format!("(deflayer {}\n  {}\n  _\n  {row}{lk_ln})\n", s.l1, s.acts1.join("\n  ")));
     for (name, acts) in &s.extra {
-        t.push_str(&format!("(deflayer {name}\n  {}\n  _\n  {row})\n", acts.join("\n  ")));
+        t.push_str(&format!("(deflayer {name}\n  {}\n  _\n  {row}{lk_ln})\n", acts.join("\n  ")));
     }
     if let Some((a, b)) = &s.overrides {
         t.push_str(&format!("(defoverrides ({a}) ({b}))\n"));
@@ -310,6 +348,9 @@ fn cfg_text(s: &CfgSpec, row: &str) -> String {
     }
     if let Some(z) = &s.zippy {
         t.push_str(&format!("(defzippy {}{})\n", z.file, z.opts));
+    }
+    if s.lk.block_last {
+        t.push_str(&c15_lk::blocks_text(&s.lk));
     }
     t
 }
@@ -409,7 +450,7 @@ fn rand_spec(rng: &mut Rng, letters: &[&str], avoid_l0: Option<&str>) -> CfgSpec
         None
     };
     let lkey = format!("(layer-while-held {l1})");
-    CfgSpec { l0, l1, acts0, acts1, opts, overrides, vkeys, seqs: vec![], zippy: None, extra: vec![], lkey }
+    CfgSpec { l0, l1, acts0, acts1, opts, overrides, vkeys, seqs: vec![], zippy: None, extra: vec![], lkey, lk: LkSpec::default() }
 }
 
 /// Give a configuration 0-2 layers after the second one and decide which non-first layer LAYER_KEY
@@ -887,6 +928,18 @@ struct Plan {
     /// key events are delivered in the order of the processing loop (see `Rd::loop_order`)
     loop_order: bool,
     session: bool,
+    /// key-name dimension: how the old configuration and the file of the first request differ in
+    /// their deflocalkeys block ("off": the case has no key-name dimension)
+    lkmode: &'static str,
+    /// FAILED-FIRST sessions: the file the first request selects is broken (the fault), with the text
+    /// of this specification (file index, spec, fault); the request fails, the file is repaired
+    /// (its valid text is written) before the second request, which selects its file absolutely
+    broken: Option<(usize, CfgSpec, Content)>,
+    /// the names of the case
+    lk_names: Vec<&'static str>,
+    /// every physical key that some configuration of the case can mean by one of the names (the
+    /// probe piece of a continuation taps them all)
+    lk_codes: Vec<u16>,
 }
 
 fn step_idx(kind: usize, cur: usize, n: usize, num_arg: usize, file_arg: usize) -> usize {
@@ -968,18 +1021,28 @@ fn n_sessions(ctx: &Ctx) -> u64 {
     ctx.tier.sel(640, 9_600)
 }
 
+/// sessions whose first request fails (the indices above the sessions)
+fn n_failed_first(ctx: &Ctx) -> u64 {
+    ctx.tier.sel(240, 3_600)
+}
+
 fn make_plan(ctx: &Ctx, idx: u64) -> Plan {
     let nc = n_classic(ctx);
     if idx < nc {
-        return make_plan_inner(ctx, idx, idx as usize, false);
+        return make_plan_inner(ctx, idx, idx as usize, false, false);
+    }
+    if idx >= nc + n_sessions(ctx) {
+        let j = (idx - nc - n_sessions(ctx)) as usize;
+        let cyc = SCENARIOS.len() * REQ_KINDS.len();
+        return make_plan_inner(ctx, idx, (j / cyc) * 2 * cyc + (j % cyc), true, true);
     }
     // sessions: scenario x request kind of the first episode cycle with the index, always valid files
     let j = (idx - nc) as usize;
     let cyc = SCENARIOS.len() * REQ_KINDS.len();
-    make_plan_inner(ctx, idx, (j / cyc) * 2 * cyc + (j % cyc), true)
+    make_plan_inner(ctx, idx, (j / cyc) * 2 * cyc + (j % cyc), true, false)
 }
 
-fn make_plan_inner(ctx: &Ctx, idx: u64, sys: usize, session: bool) -> Plan {
+fn make_plan_inner(ctx: &Ctx, idx: u64, sys: usize, session: bool, failed_first: bool) -> Plan {
     let mut rng = Rng::for_case(ctx.seed, "C15", "case", idx);
     // what was added to the single-episode cases later draws from a stream of its own
     let mut srng = Rng::for_case(ctx.seed, "C15", "session", idx);
@@ -1197,6 +1260,59 @@ fn make_plan_inner(ctx: &Ctx, idx: u64, sys: usize, session: bool) -> Plan {
     for sp in specs.iter_mut() {
         add_layers(&mut xr, sp, NEW_LETTERS, [2, 3, 3]);
     }
+    // key-name dimension (stream of its own; the rest of a case is what it was): half of the cases
+    let mut lr = Rng::for_case(ctx.seed, "C15", "localkeys", idx);
+    let mut lkmode: &'static str = "off";
+    let mut lk_names: Vec<&'static str> = vec![];
+    let mut lk_codes: Vec<u16> = vec![];
+    let mut broken: Option<(usize, CfgSpec, Content)> = None;
+    if failed_first {
+        // what is in the file when the first request is made: another specification (so the repair
+        // changes more than the faulty spot), broken by a semantic error (3 of 4: the parser gets
+        // past the top-level blocks before it fails) or a syntax error
+        let mut fr = Rng::for_case(ctx.seed, "C15", "failed-first", idx);
+        let mut b = specs[target].clone();
+        if fr.coin() {
+            let l1 = b.l1.clone();
+            b.acts0 = (0..ACT_KEYS.len()).map(|_| rand_action(&mut fr, NEW_LETTERS, &l1)).collect();
+        }
+        let fault = if fr.chance(3, 4) { Content::Semantic } else { Content::Syntax };
+        broken = Some((target, b, fault));
+    }
+    if lr.chance(1, 2) || (failed_first && lr.chance(1, 2)) {
+        lk_names = lr.subset(c15_lk::LK_NAMES.len(), 3).into_iter().map(|i| c15_lk::LK_NAMES[i].0).collect();
+        lkmode = match lr.usize(20) {
+            0..=7 => "block->none",
+            8..=10 => "none->block",
+            11..=15 => "block->other-block",
+            16 | 17 => "block->same-block",
+            _ => "none->none",
+        };
+        old.lk = c15_lk::rand_lk(&mut lr, &lk_names, OLD_LETTERS, lkmode.starts_with("block"));
+        for (i, sp) in specs.iter_mut().enumerate() {
+            if i != target {
+                let wb = lr.coin();
+                sp.lk = c15_lk::rand_lk(&mut lr, &lk_names, NEW_LETTERS, wb);
+                continue;
+            }
+            sp.lk = c15_lk::rand_lk(&mut lr, &lk_names, NEW_LETTERS, matches!(lkmode, "none->block" | "block->other-block"));
+            if lkmode == "block->same-block" {
+                sp.lk.block = old.lk.block.clone();
+                c15_lk::use_names(&mut lr, &mut sp.lk, &lk_names, NEW_LETTERS);
+            }
+        }
+        if let Some(b) = broken.as_mut() {
+            // the broken text mostly has a block of its own
+            let wb = lr.chance(4, 5);
+            b.1.lk = c15_lk::rand_lk(&mut lr, &lk_names, NEW_LETTERS, wb);
+        }
+        let mut all: Vec<&LkSpec> = vec![&old.lk];
+        all.extend(specs.iter().map(|s| &s.lk));
+        if let Some(b) = &broken {
+            all.push(&b.1.lk);
+        }
+        lk_codes = c15_lk::relevant_codes(&all, &lk_names);
+    }
     // progress dimension: the bound of the progress clause for the first episode comes from the
     // old configuration as it is now; in successful cases a silent custom action (what the scenario
     // holds, or the reload key itself) is kept held for longer than that with no further input
@@ -1224,6 +1340,9 @@ fn make_plan_inner(ctx: &Ctx, idx: u64, sys: usize, session: bool) -> Plan {
         }
     }
     let mut contents = vec![Content::Valid; nfiles];
+    if let Some((i, _, f)) = &broken {
+        contents[*i] = f.clone();
+    }
     if !success {
         // every file a request of this case can land on is broken in the same way
         for &i in &idx_after {
@@ -1257,23 +1376,36 @@ fn make_plan_inner(ctx: &Ctx, idx: u64, sys: usize, session: bool) -> Plan {
     }
     let (mut cont, mut cinfo) = build_cont(&mut rng, &metas[target], true);
     add_repeats(&mut xr, &mut cont, &mut cinfo, &metas[target], true);
+    add_lk_piece(&mut lr, &mut cont, &mut cinfo, &lk_codes);
     let mut eps = vec![Episode { scenario, pre, reqs, idx_after, post, cont, cinfo, typing: "mixed", bound: bound0, long_hold, silent_key: held_custom.map(|_| osc("a")) }];
     if session {
         let more = 1 + srng.usize(2);
         let mut cur = target;
         for e in 0..more {
             // what is typed between the previous reload and this request
-            let (typing, mut cont, mut cinfo) = between_typing(&mut srng, &metas[cur]);
+            let first_failed = broken.is_some() && e == 0;
+            // (after a failed first request the old configuration is still the active one: nothing
+            // is known about what its keys type, and nothing is compared until the next reload)
+            let no_meta = Meta::default();
+            let (typing, mut cont, mut cinfo) = if first_failed { ("none", vec![Ev::T(40)], ContInfo::default()) } else { between_typing(&mut srng, &metas[cur]) };
             if typing != "none" {
                 add_repeats(&mut xr, &mut cont, &mut cinfo, &metas[cur], typing == "mixed");
+            }
+            if typing == "mixed" {
+                add_lk_piece(&mut lr, &mut cont, &mut cinfo, &lk_codes);
             }
             if let Some(prev) = eps.last_mut() {
                 prev.typing = typing;
                 prev.cont = cont;
                 prev.cinfo = cinfo;
             }
-            let mut ep = later_episode(&mut srng, &metas[cur]);
-            ep.bound = progress_bound(&specs[cur]);
+            let mut ep = later_episode(&mut srng, if first_failed { &no_meta } else { &metas[cur] });
+            ep.bound = progress_bound(if first_failed { &old } else { &specs[cur] });
+            if first_failed {
+                // the statement does not say which file a relative request selects after a failed
+                // one: the request after the failure names its file absolutely
+                ep.reqs[0].kind = 3 + srng.usize(2);
+            }
             if ep.reqs[0].hold > 1000 && pr.chance(1, 2) {
                 // the reload key is held for longer than the bound of the progress clause
                 let lead = match ep.reqs[0].mid {
@@ -1288,6 +1420,7 @@ fn make_plan_inner(ctx: &Ctx, idx: u64, sys: usize, session: bool) -> Plan {
             if e + 1 == more {
                 let (mut c, mut ci) = build_cont(&mut srng, &metas[cur], true);
                 add_repeats(&mut xr, &mut c, &mut ci, &metas[cur], true);
+                add_lk_piece(&mut lr, &mut c, &mut ci, &lk_codes);
                 ep.cont = c;
                 ep.cinfo = ci;
                 ep.typing = "mixed";
@@ -1295,7 +1428,7 @@ fn make_plan_inner(ctx: &Ctx, idx: u64, sys: usize, session: bool) -> Plan {
             eps.push(ep);
         }
     }
-    Plan { nfiles, specs, old, contents, fault_variant: rng.below(12), num_arg, file_arg, eps, success, zmode, smode, loop_order, session }
+    Plan { nfiles, specs, old, contents, fault_variant: rng.below(12), num_arg, file_arg, eps, success, zmode, smode, loop_order, session, lkmode, broken, lk_names, lk_codes }
 }
 
 const LATER_SCENARIOS: &[&str] = &["idle", "plain-key-held", "plain-key-held", "plain-key-held", "two-plain-keys-held", "two-plain-keys-held", "lsft-held", "random-typing", "random-typing"];
@@ -1418,6 +1551,8 @@ struct ContInfo {
     repeat_pieces: u64,
     /// Repeat events inserted into the waits of the other pieces for a key that is held then
     sprinkled_repeats: u64,
+    /// taps of the key-name probe piece (see c15_lk.rs)
+    lk_taps: u64,
 }
 
 /// A directed OS-repeat piece: one or two keys are held and `KeyValue::Repeat` events arrive for
@@ -1538,6 +1673,32 @@ fn add_repeats(xr: &mut Rng, cont: &mut Vec<Ev>, info: &mut ContInfo, m: &Meta, 
             if let Some(t) = tail {
                 cont.push(t);
             }
+        }
+    }
+}
+
+/// Key-name dimension: 4 of 5 continuations of a case that has it get the probe piece (every
+/// physical key that some configuration of the case can mean by one of the names of the case is
+/// tapped once), as their first piece or before the final wait.
+fn add_lk_piece(lr: &mut Rng, cont: &mut Vec<Ev>, info: &mut ContInfo, codes: &[u16]) {
+    if codes.is_empty() || !lr.chance(4, 5) {
+        return;
+    }
+    let (piece, n) = c15_lk::probe_piece(lr, codes);
+    info.lk_taps += n;
+    if lr.coin() {
+        let mut v = piece;
+        if !info.chord_bursts.is_empty() {
+            // (a chord that follows is typed after a pause that surely re-enables zippychord)
+            v.push(Ev::T(1300));
+        }
+        v.extend(cont.iter().cloned());
+        *cont = v;
+    } else {
+        let tail = cont.pop();
+        cont.extend(piece);
+        if let Some(t) = tail {
+            cont.push(t);
         }
     }
 }
@@ -1896,6 +2057,15 @@ fn texts(p: &Plan, paths: &Paths, noop: bool) -> (String, Vec<String>) {
     (old, new)
 }
 
+/// text from which the non-valid content of file `i` is made (failed-first sessions: the broken
+/// specification; else the valid text of the file)
+fn faulty_base(p: &Plan, paths: &Paths, noop: bool, i: usize, valid: &str) -> String {
+    match &p.broken {
+        Some((bi, spec, _)) if *bi == i => cfg_text(spec, &reload_row(p.num_arg, &paths.files[p.file_arg].to_string_lossy(), noop)),
+        _ => valid.to_string(),
+    }
+}
+
 /// Watches every loop iteration for ConfigFileReload notifications.
 struct Watch {
     seen_notes: usize,
@@ -1946,7 +2116,7 @@ fn run_reload(p: &Plan, paths: &Paths, noop: bool) -> Result<Result<Obs, String>
     // then changes on disk together with the configuration)
     let mut io_ok = true;
     for i in 1..p.nfiles {
-        io_ok &= write_state(&paths.dir, &paths.files[i], &p.contents[i], &p.specs[i], &new[i], p.fault_variant).is_ok();
+        io_ok &= write_state(&paths.dir, &paths.files[i], &p.contents[i], &p.specs[i], &faulty_base(p, paths, noop, i, &new[i]), p.fault_variant).is_ok();
     }
     if let Some(z) = &p.old.zippy {
         io_ok &= std::fs::write(paths.dir.join(&z.file), dict_text(z)).is_ok();
@@ -1955,6 +2125,8 @@ fn run_reload(p: &Plan, paths: &Paths, noop: bool) -> Result<Result<Obs, String>
     if !io_ok {
         return Ok(Err("cannot write scratch files".into()));
     }
+    // a newly started process: the parser's key-name table is the default one
+    c15_lk::reset_name_table();
     let mut rd = match Rd::new(paths.files.clone(), p.loop_order) {
         Ok(r) => r,
         Err(e) => return Ok(Err(format!("old configuration rejected: {e}"))),
@@ -1977,7 +2149,13 @@ fn run_reload(p: &Plan, paths: &Paths, noop: bool) -> Result<Result<Obs, String>
         if ei == 0 {
             // the file the first request reloads changes on disk just before the request (the
             // files stay as they are for the later episodes of a session)
-            if write_state(&paths.dir, &paths.files[0], &p.contents[0], &p.specs[0], &new[0], p.fault_variant).is_err() {
+            if write_state(&paths.dir, &paths.files[0], &p.contents[0], &p.specs[0], &faulty_base(p, paths, noop, 0, &new[0]), p.fault_variant).is_err() {
+                return Ok(Err("cannot rewrite scratch file".into()));
+            }
+        }
+        if let (1, Some((bi, _, _))) = (ei, &p.broken) {
+            // failed-first session: the user repairs the file before the next request
+            if write_state(&paths.dir, &paths.files[*bi], &Content::Valid, &p.specs[*bi], &new[*bi], p.fault_variant).is_err() {
                 return Ok(Err("cannot rewrite scratch file".into()));
             }
         }
@@ -2087,6 +2265,11 @@ struct FreshRun {
 
 /// Fresh instance of `file` (Kanata::new, as at start-up) running the continuation `cont`.
 fn run_fresh(p: &Plan, file: &Path, cont: &[Ev]) -> Result<Result<FreshRun, String>, Jitter> {
+    // a newly started process: the parser's process-global key-name table is the default one. (The
+    // run with the reload is over by now - it is not disturbed - and it was the last one to parse a
+    // file in this process: without the reset this instance would be "started" in a process that has
+    // already parsed the files of the case, which no freshly started kanata is.)
+    c15_lk::reset_name_table();
     let mut rd = match Rd::new(vec![file.to_path_buf()], p.loop_order) {
         Ok(r) => r,
         Err(e) => return Ok(Err(format!("fresh instance rejected the new file: {e}"))),
@@ -2174,6 +2357,10 @@ fn describe_plan(p: &Plan, paths: &Paths) -> Value {
         "zippy_dictionary_of_each_file": p.specs.iter().map(|s| s.zippy.as_ref().map(|z| format!("{}: {}", z.file, dict_text(z)))).collect::<Vec<_>>(),
         "zippy_in_old_and_new": p.zmode,
         "sequences_in_old_and_new": p.smode,
+        "deflocalkeys_in_old_config_and_first_requested_file": p.lkmode,
+        "key_names_of_the_case": p.lk_names,
+        "failed_first_session": p.broken.as_ref().map(|(i, spec, f)| json!({"file": i, "fault_at_first_request": fault_name(f), "variant": p.fault_variant, "text_before_the_fault_is_applied": cfg_text(spec, &reload_row(p.num_arg, &paths.files[p.file_arg].to_string_lossy(), false)), "repaired_before_second_request": "the valid text of the file is written"})),
+        "physical_keys_tapped_by_the_key_name_probe": p.lk_codes,
         "key_events_delivered": if p.loop_order { "in the order of the processing loop: can_block_update_idle_waiting, handle_input_event, handle_time_ticks (every key event takes one tick)" } else { "queued between two ticks (handle_input_event only)" },
         "pre_history": render_hist(&e0.pre),
         "progress_bound_of_each_episode": p.eps.iter().map(|e| e.bound).collect::<Vec<_>>(),
@@ -2197,6 +2384,8 @@ fn describe_plan(p: &Plan, paths: &Paths) -> Value {
 }
 
 fn run_plan(ctx: &Ctx, idx: u64, out: &mut CaseOut) {
+    // (the harness resolves the key names of its histories through the same table)
+    c15_lk::reset_name_table();
     let p = make_plan(ctx, idx);
     let paths = paths_for(idx, p.nfiles);
     let desc = describe_plan(&p, &paths);
@@ -2217,6 +2406,7 @@ fn run_plan(ctx: &Ctx, idx: u64, out: &mut CaseOut) {
             Err(Jitter) => break Err(()),
         }
     };
+    c15_lk::reset_name_table();
     let _ = std::fs::remove_dir_all(&paths.dir);
     let _ = std::fs::remove_dir(paths.dir.parent().unwrap_or(Path::new("/nonexistent")));
     if res.is_err() {
@@ -2270,6 +2460,15 @@ fn judge_plan(p: &Plan, paths: &Paths, out: &mut CaseOut, desc: &Value, verbose:
         if p.old.zippy.is_some() {
             out.inc("failed_reload_cases_with_defzippy_in_old_config");
         }
+        if p.lkmode != "off" {
+            // (a broken file is parsed up to its error: its deflocalkeys block may already have
+            // rewritten the process-global name table; the old configuration must not notice)
+            out.inc("localkeys:failed_reload_cases");
+            if p.specs[*e0.idx_after.last().unwrap_or(&0)].lk.block.is_some() && matches!(fault, "syntax-error" | "semantic-error" | "broken-zippy-dictionary") {
+                out.inc("localkeys:failed_reload_of_broken_file_with_deflocalkeys_block");
+            }
+            out.count("localkeys:probe_taps_compared_with_no_request_twin", e0.cinfo.lk_taps);
+        }
         out.tag(format!("fail|{}|{}|{}|n{}", e0.scenario, kind_names.join("+"), fault, p.nfiles));
         if let Some((_, Note::Reload(f))) = a.notes.iter().find(|n| matches!(n.1, Note::Reload(_))) {
             out.violate(
@@ -2319,7 +2518,8 @@ fn judge_plan(p: &Plan, paths: &Paths, out: &mut CaseOut, desc: &Value, verbose:
         out.inc("sessions");
         out.inc(&format!("session_episodes_planned:{}", p.eps.len()));
         out.tag(format!(
-            "session|{}|{}",
+            "{}|{}|{}",
+            if p.broken.is_some() { "failed-first-session" } else { "session" },
             p.eps.iter().map(|e| format!("{}+{}{}{}", e.scenario, REQ_KINDS[e.reqs[0].kind], if e.reqs[0].hold > 1000 { "+held-1s" } else { "" }, e.long_hold.map(|k| format!("+{k}-beyond-bound")).unwrap_or_default())).collect::<Vec<_>>().join(">"),
             p.eps.iter().map(|e| e.typing).collect::<Vec<_>>().join(">"),
         ));
@@ -2335,6 +2535,33 @@ fn judge_plan(p: &Plan, paths: &Paths, out: &mut CaseOut, desc: &Value, verbose:
     let mut prev_by_fallback = false;
     for (ei, eo) in a.eps.iter().enumerate() {
         let ep = &p.eps[ei];
+        if let (0, Some((bi, bspec, f))) = (ei, &p.broken) {
+            // failed-first session: the first request fails; the old configuration stays (what it
+            // does then is judged by the failed-reload cases), the later episodes are judged as
+            // ever: each successful reload equals a fresh instance of its file
+            let fault = fault_name(f);
+            out.inc("failed_first_sessions");
+            out.inc(&format!("failed_first_sessions:fault:{fault}"));
+            if bspec.lk.block.is_some() && *f == Content::Semantic {
+                out.inc("failed_first_sessions:broken_file_has_deflocalkeys_block_and_fails_after_it");
+            }
+            if let Some(ap) = eo.applied.first() {
+                out.violate(
+                    format!("failed-reload:notified:{fault}:first-request-of-session"),
+                    format!("the file to reload (file {bi}) is broken ({fault}) but a ConfigFileReload notification for {} was sent", ap.file),
+                    witness(json!({"notifications": notes_json(&a.notes)}), json!("no ConfigFileReload notification")),
+                );
+                return Ok(());
+            }
+            if eo.t_idle.is_none() {
+                out.inc("failed_first_sessions:not_idle_after_the_failed_request:not_judged_further");
+                return Ok(());
+            }
+            if a.eps.len() > 1 {
+                out.inc("failed_first_sessions_with_later_request");
+            }
+            continue;
+        }
         match judge_episode(p, paths, &a, ei, active, prev_by_fallback, out, &witness)? {
             Some(landed) => active = Some(landed),
             None => return Ok(()),
@@ -2342,6 +2569,27 @@ fn judge_plan(p: &Plan, paths: &Paths, out: &mut CaseOut, desc: &Value, verbose:
         prev_by_fallback = eo.applied.last().map(|x| x.idle_counter > 1000).unwrap_or(false) && matches!(ep.typing, "none" | "plain-keys-only");
     }
     Ok(())
+}
+
+/// Key-name dimension, structural precondition of two signatures: file `tgt` uses (in defsrc or in
+/// an action) a key name to which a configuration that this process has parsed and applied before
+/// episode `ei`'s reload - the old one, the files the earlier episodes of the session installed -
+/// gives another meaning than `tgt` alone does (c15_lk::resolve = block entry, else the guide's code).
+fn lk_name_meant_something_else(p: &Plan, ei: usize, tgt: usize) -> bool {
+    if p.lkmode == "off" {
+        return false;
+    }
+    let lt = &p.specs[tgt].lk;
+    let mut parsed_before: Vec<&LkSpec> = vec![&p.old.lk];
+    for (j, e) in p.eps[..ei.min(p.eps.len())].iter().enumerate() {
+        match (&p.broken, e.idx_after.last()) {
+            // (parsed up to its error, never applied)
+            (Some((_, b, _)), _) if j == 0 => parsed_before.push(&b.lk),
+            (_, Some(i)) => parsed_before.push(&p.specs[*i].lk),
+            _ => {}
+        }
+    }
+    c15_lk::names_used(lt).iter().any(|n| parsed_before.iter().any(|b| c15_lk::resolve(b, n) != c15_lk::resolve(lt, n)))
 }
 
 /// Judge episode `ei` of a successful-reload case. Returns the index of the file that is active
@@ -2424,6 +2672,8 @@ fn judge_episode(p: &Plan, paths: &Paths, a: &Obs, ei: usize, active: Option<usi
     if eo.applied.is_empty() {
         let sig = match &eo.settle_problem {
             Some((w, _)) => format!("not-applied:{w}"),
+            // (the file is one a fresh start accepts; see lk_name_meant_something_else)
+            None if lk_name_meant_something_else(p, ei, planned_target) => "not-applied:key-name-meant-something-else-before-the-reload".to_string(),
             None => "not-applied".to_string(),
         };
         out.violate(sg(&sig), "a valid file was requested but no reload was applied within 6000 ticks after every key was released", witness(json!({"episode": ei, "trace": whole(&a.trace), "notifications": notes_json(&a.notes), "settle": format!("{:?}", eo.settle_problem)}), json!("ConfigFileReload once no output key is down")));
@@ -2615,6 +2865,12 @@ fn judge_episode(p: &Plan, paths: &Paths, a: &Obs, ei: usize, active: Option<usi
         out.inc("episodes_with_key_typed_after_the_application:not_compared_with_fresh_instance");
         return Ok(Some(target));
     }
+    if let (1, Some((_, b, f))) = (ei, &p.broken) {
+        out.inc("failed_first_sessions:successful_reload_after_the_failed_one_compared_with_fresh");
+        if b.lk.block.is_some() && *f == Content::Semantic && p.specs[target].lk.block.is_none() && p.lkmode != "off" {
+            out.inc("failed_first_sessions:broken_file_had_deflocalkeys_block_then_file_without_block_reloaded");
+        }
+    }
     // (7) from the idle point on: a fresh instance of the new file
     let f = match run_fresh(p, &paths.files[target], &ep.cont)? {
         Ok(f) => f,
@@ -2634,12 +2890,58 @@ fn judge_episode(p: &Plan, paths: &Paths, a: &Obs, ei: usize, active: Option<usi
     }
     // what differs between the configuration before the reload and the reloaded file outside the
     // layout, and whether the continuation reached it
+    let mut lk_changed = false;
     {
         let tgt = &p.specs[target];
         let before = match active {
             None => &p.old,
             Some(i) => &p.specs[i],
         };
+        if p.lkmode != "off" {
+            // key names: the table the previous configuration left in the process against what the
+            // reloaded file alone says (c15_lk::resolve is the model of a fresh start)
+            let (lb, lt) = (&before.lk, &tgt.lk);
+            let pair = match (&lb.block, &lt.block) {
+                (Some(_), None) => "block->none",
+                (None, Some(_)) => "none->block",
+                (None, None) => "none->none",
+                (Some(x), Some(y)) => {
+                    let (mut x, mut y) = (x.clone(), y.clone());
+                    x.sort();
+                    y.sort();
+                    if x == y {
+                        "block->same-block"
+                    } else {
+                        "block->other-block"
+                    }
+                }
+            };
+            out.inc(&format!("localkeys_pair:{pair}"));
+            if later {
+                out.inc(&format!("localkeys_pair_in_later_episode:{pair}"));
+            }
+            let used = c15_lk::names_used(lt);
+            lk_changed = lk_name_meant_something_else(p, ei, target);
+            if lk_changed && !used.iter().any(|n| c15_lk::resolve(lb, n) != c15_lk::resolve(lt, n)) {
+                out.inc("localkeys:name_meant_something_else_only_in_a_configuration_before_the_previous_one");
+            }
+            out.count("localkeys:names_used_by_reloaded_file", used.len() as u64);
+            if lk_changed {
+                out.inc("localkeys:reloads_that_change_the_meaning_of_a_name_the_new_file_uses");
+                if lt.block.is_none() {
+                    out.inc("localkeys:name_redefined_by_previous_file_used_by_new_file_without_block");
+                } else if lb.block.is_some() && used.iter().any(|n| c15_lk::resolve(lb, n) != c15_lk::resolve(lt, n) && !lt.block.as_ref().map(|b| b.iter().any(|x| &x.0 == n)).unwrap_or(false)) {
+                    out.inc("localkeys:name_redefined_by_previous_file_used_but_not_defined_by_new_block");
+                }
+                if ep.cinfo.lk_taps > 0 {
+                    out.inc("localkeys:such_reloads_followed_by_probe_of_every_key_a_name_can_mean");
+                }
+            }
+            if !lt.decoys.is_empty() {
+                out.inc("localkeys:reloaded_file_has_blocks_for_other_platforms");
+            }
+            out.count("localkeys:probe_taps_compared_with_fresh", ep.cinfo.lk_taps);
+        }
         let on_planned_target = target == planned_target;
         let zo = before.zippy.as_ref();
         let zn = tgt.zippy.as_ref();
@@ -2772,6 +3074,10 @@ fn judge_episode(p: &Plan, paths: &Paths, a: &Obs, ei: usize, active: Option<usi
         out.violate(
             sg(if eo.stale_override_state {
                 "differs-from-fresh-instance:stale-override-state"
+            } else if lk_changed {
+                // structural precondition: the configuration before the reload gave a key name that
+                // the reloaded file uses another meaning than the reloaded file alone does
+                "differs-from-fresh-instance:key-name-meant-something-else-before-the-reload"
             } else if at_repeat {
                 "differs-from-fresh-instance:forwarded-os-repeat"
             } else {
@@ -2800,7 +3106,7 @@ impl Check for C15Check {
         "C15"
     }
     fn n_cases(&self, ctx: &Ctx) -> u64 {
-        n_classic(ctx) + n_sessions(ctx)
+        n_classic(ctx) + n_sessions(ctx) + n_failed_first(ctx)
     }
     fn describe(&self, ctx: &Ctx, idx: u64) -> Value {
         let p = make_plan(ctx, idx);
@@ -2812,7 +3118,7 @@ impl Check for C15Check {
         out
     }
     fn rule(&self) -> String {
-        "case = (pre-state scenario, reload request kind, outcome) taken systematically from the index: 16 scenarios (idle, key held, pending tap-hold, active one-shot, running macro, held mouse button, held mwheel, held movemouse, caps-word, pending hold-for-duration, layer held, layer switched, unmod key held > 1 s (the 1000-idle-tick fallback), plain key held > 1 s, two keys held, random typing) x 5 request kinds (lrld, lrld-next, lrld-prev, lrld-num, lrld-file) x {valid new file, broken new file} x 6 fault kinds (syntax error, semantic error, missing file, directory, non-UTF-8, valid text naming a malformed zippychord dictionary), over 1-3 real files; every fifth case taps a second request back-to-back. Old and new configurations are random over plain keys, tap-hold, one-shot, macro, mouse button / wheel / movement (plain and accelerated), caps-word, hold-for-duration, layers, chords, multi, tap-dance, unmod, fork, switch with key-timing, overrides. Everything that a reload has to replace OUTSIDE the layout is varied independently between the old configuration and every new file: zippychord (old file with defzippy -> new without, new with another dictionary, new naming the same dictionary file whose content was edited, old without -> new with; dictionaries are real files next to the configuration, contain the chords of the case expressed in the letters the reloaded file types, follow-up chords and own chords; deadline / idle-reactivate-time / smart-space options vary), defseq tables with a leader key (sldr or (sequence t mode)) in old-only / new-only / both (a third of them with sequence-always-on, whose time-out and input mode are the Kanata-level fields), the defvirtualkeys list (2-4 keys, random order = random index behind each name, random actions), dynamic-macro record / play keys (new files only) and the defcfg options sequence-timeout, sequence-input-mode, sequence-backtrack-modcancel, sequence-always-on, movemouse-smooth-diagonals, movemouse-inherit-accel-state, dynamic-macro-max-presses, dynamic-macro-replay-delay-behaviour, override-release-on-activation, concurrent-tap-hold, rapid-event-delay. After the request(s) the held keys are released with random gaps, the run settles, then a continuation of 2-5 pieces is typed: random typing, the chords of the case pressed together (half of the cases start with one, so zippychord is surely enabled), leader + key sequence (some defined as (lsft k1 k2) and typed with lsft held, some broken off), two accelerated movement keys pressed one after the other, record / stop / replay of a dynamic macro, virtual keys pressed / tapped / toggled by name as the TCP server does, movement keys held together, random keys pressed together. Failed reloads are compared, output by output and tick by tick, with a twin run whose reload keys are inert (the dictionary file on disk changes in both); successful ones with a fresh Kanata::new of the new file from the idle point on, plus the deferral / notification / first-layer / nothing-pressed oracles. SESSIONS (the indices above the single-episode cases; 640 quick / 9600 thorough): 2-3 reload episodes on one running instance, all files valid. The first episode is one of the 16 scenarios x 5 request kinds (one request; in 2/5 the reload key itself is held 1050-1450 ticks, so that the held custom action defers the reload until the one-idle-second fallback applies it, in a third of those another key is tapped during the hold; in 1/4 whatever the scenario holds is held 1100 / 1400 ticks after the request, with a key tapped in the middle of that wait when the scenario surely defers the reload). Its continuation is the typing before the next request: nothing, plain letters only (taps and overlapping holds of keys that type a plain letter in the file just installed, i.e. nothing kanata has to wait for), or the mixed continuation described above. Every later episode makes its pre-state on the file the previous one installed (idle, one or two plain-letter keys held, the lsft key held, random typing cut off anywhere), taps a random request kind (a third with the reload key held for more than a second), waits (a fifth for 1100 / 1400 ticks, possibly with a key tapped in the middle), releases what is held with random gaps, settles, and types its own continuation; the last one types the mixed continuation. Every episode is judged on its own: exactly one ConfigFileReload naming the file the request selects relative to the file active by then, not applied with an OS key down unless more than 1000 iterations passed since the last input / output, notification pair, first layer, only releases until the idle point, everything up at the idle point, continuation identical to a fresh instance of the file that episode installed. OS KEY REPEATS are a dimension of every continuation (single-episode cases, failed-reload cases and every episode of a session; a stream of their own, the rest of a case is what it was): every configuration (old and every file) has 2, 3 or 4 layers (old: 2/3/4 with weights 2:1:1, files 2:3:3, random actions on the additional layers) and maps the extra physical key j on its first layer to (layer-while-held L), L = the last layer half of the time, else any non-first layer; 3 of 5 mixed continuations get a directed piece at their start or end: [j down] key down (2 of 3 a key that types a plain letter in the installed file), [j down], 1-4 Repeat events for the key 1-33 ticks apart, a third with a second key held and repeated plus a stray repeat of the first, a quarter of the layer-held ones release j first and repeat once more, key up, a fifth with a Repeat after the release, j up; and 2 of 3 of all continuations get 1-3 Repeat events inside a quarter of the waits during which a key is physically held (4 of 5 for the key pressed last). Reloaded and fresh instance receive the same events; forwarded repeats are outputs of the compared traces (kind repeat, stamped with the tick at which the event arrived). KEY-EVENT DELIVERY is a dimension of every case: a third of the single-episode cases and three quarters of the sessions deliver every key event as a loop iteration of its own in the loop's order (can_block_update_idle_waiting, handle_input_event, handle_time_ticks), the others queue key events between two iterations. HELD CUSTOM ACTIONS AND THE ONE-IDLE-SECOND FALLBACK (stream of its own): the scenario 'held mouse button' holds mlft (3 of 8), mrgt / mmid / mfwd / mbck (2 of 8) or (arbitrary-code 700 / 249 / 511) (3 of 8); in half of its successful cases the key stays held for bound + 30 / 200 / 700 iterations after the request with no further input (sessions: sometimes one key tapped early in that wait, the full wait follows it); the reload key itself is held for that long in a tenth of the other successful single-episode cases with one request and in half of the session episodes (first and later ones) that hold it for more than a second; bound = 1000 + the longest duration the configuration that is active at the request names (any number in an action, virtual key, defcfg or defzippy option; 1000 for a leader key without written sequence-timeout, 500 for defzippy) + 100. PROGRESS CLAUSE, judged for every episode of every successful case: between the request and the first application there is no run of more than `bound` consecutive loop iterations without input event, without output, without an OS key down and with nothing physically held except reload keys and the scenario's mouse-button / arbitrary-code key. Non-trivial = case in which the request was made on an accepted old configuration; distinct = (outcome, scenario, request kinds, fault kind, number of files, number of reloads applied), for sessions (per episode: scenario, request kind, reload key held > 1 s; kind of typing between).".into()
+        "case = (pre-state scenario, reload request kind, outcome) taken systematically from the index: 16 scenarios (idle, key held, pending tap-hold, active one-shot, running macro, held mouse button, held mwheel, held movemouse, caps-word, pending hold-for-duration, layer held, layer switched, unmod key held > 1 s (the 1000-idle-tick fallback), plain key held > 1 s, two keys held, random typing) x 5 request kinds (lrld, lrld-next, lrld-prev, lrld-num, lrld-file) x {valid new file, broken new file} x 6 fault kinds (syntax error, semantic error, missing file, directory, non-UTF-8, valid text naming a malformed zippychord dictionary), over 1-3 real files; every fifth case taps a second request back-to-back. Old and new configurations are random over plain keys, tap-hold, one-shot, macro, mouse button / wheel / movement (plain and accelerated), caps-word, hold-for-duration, layers, chords, multi, tap-dance, unmod, fork, switch with key-timing, overrides. Everything that a reload has to replace OUTSIDE the layout is varied independently between the old configuration and every new file: zippychord (old file with defzippy -> new without, new with another dictionary, new naming the same dictionary file whose content was edited, old without -> new with; dictionaries are real files next to the configuration, contain the chords of the case expressed in the letters the reloaded file types, follow-up chords and own chords; deadline / idle-reactivate-time / smart-space options vary), defseq tables with a leader key (sldr or (sequence t mode)) in old-only / new-only / both (a third of them with sequence-always-on, whose time-out and input mode are the Kanata-level fields), the defvirtualkeys list (2-4 keys, random order = random index behind each name, random actions), dynamic-macro record / play keys (new files only) and the defcfg options sequence-timeout, sequence-input-mode, sequence-backtrack-modcancel, sequence-always-on, movemouse-smooth-diagonals, movemouse-inherit-accel-state, dynamic-macro-max-presses, dynamic-macro-replay-delay-behaviour, override-release-on-activation, concurrent-tap-hold, rapid-event-delay. After the request(s) the held keys are released with random gaps, the run settles, then a continuation of 2-5 pieces is typed: random typing, the chords of the case pressed together (half of the cases start with one, so zippychord is surely enabled), leader + key sequence (some defined as (lsft k1 k2) and typed with lsft held, some broken off), two accelerated movement keys pressed one after the other, record / stop / replay of a dynamic macro, virtual keys pressed / tapped / toggled by name as the TCP server does, movement keys held together, random keys pressed together. Failed reloads are compared, output by output and tick by tick, with a twin run whose reload keys are inert (the dictionary file on disk changes in both); successful ones with a fresh Kanata::new of the new file from the idle point on, plus the deferral / notification / first-layer / nothing-pressed oracles. SESSIONS (the indices above the single-episode cases; 640 quick / 9600 thorough): 2-3 reload episodes on one running instance, all files valid. The first episode is one of the 16 scenarios x 5 request kinds (one request; in 2/5 the reload key itself is held 1050-1450 ticks, so that the held custom action defers the reload until the one-idle-second fallback applies it, in a third of those another key is tapped during the hold; in 1/4 whatever the scenario holds is held 1100 / 1400 ticks after the request, with a key tapped in the middle of that wait when the scenario surely defers the reload). Its continuation is the typing before the next request: nothing, plain letters only (taps and overlapping holds of keys that type a plain letter in the file just installed, i.e. nothing kanata has to wait for), or the mixed continuation described above. Every later episode makes its pre-state on the file the previous one installed (idle, one or two plain-letter keys held, the lsft key held, random typing cut off anywhere), taps a random request kind (a third with the reload key held for more than a second), waits (a fifth for 1100 / 1400 ticks, possibly with a key tapped in the middle), releases what is held with random gaps, settles, and types its own continuation; the last one types the mixed continuation. Every episode is judged on its own: exactly one ConfigFileReload naming the file the request selects relative to the file active by then, not applied with an OS key down unless more than 1000 iterations passed since the last input / output, notification pair, first layer, only releases until the idle point, everything up at the idle point, continuation identical to a fresh instance of the file that episode installed. OS KEY REPEATS are a dimension of every continuation (single-episode cases, failed-reload cases and every episode of a session; a stream of their own, the rest of a case is what it was): every configuration (old and every file) has 2, 3 or 4 layers (old: 2/3/4 with weights 2:1:1, files 2:3:3, random actions on the additional layers) and maps the extra physical key j on its first layer to (layer-while-held L), L = the last layer half of the time, else any non-first layer; 3 of 5 mixed continuations get a directed piece at their start or end: [j down] key down (2 of 3 a key that types a plain letter in the installed file), [j down], 1-4 Repeat events for the key 1-33 ticks apart, a third with a second key held and repeated plus a stray repeat of the first, a quarter of the layer-held ones release j first and repeat once more, key up, a fifth with a Repeat after the release, j up; and 2 of 3 of all continuations get 1-3 Repeat events inside a quarter of the waits during which a key is physically held (4 of 5 for the key pressed last). Reloaded and fresh instance receive the same events; forwarded repeats are outputs of the compared traces (kind repeat, stamped with the tick at which the event arrived). KEY-EVENT DELIVERY is a dimension of every case: a third of the single-episode cases and three quarters of the sessions deliver every key event as a loop iteration of its own in the loop's order (can_block_update_idle_waiting, handle_input_event, handle_time_ticks), the others queue key events between two iterations. HELD CUSTOM ACTIONS AND THE ONE-IDLE-SECOND FALLBACK (stream of its own): the scenario 'held mouse button' holds mlft (3 of 8), mrgt / mmid / mfwd / mbck (2 of 8) or (arbitrary-code 700 / 249 / 511) (3 of 8); in half of its successful cases the key stays held for bound + 30 / 200 / 700 iterations after the request with no further input (sessions: sometimes one key tapped early in that wait, the full wait follows it); the reload key itself is held for that long in a tenth of the other successful single-episode cases with one request and in half of the session episodes (first and later ones) that hold it for more than a second; bound = 1000 + the longest duration the configuration that is active at the request names (any number in an action, virtual key, defcfg or defzippy option; 1000 for a leader key without written sequence-timeout, 500 for defzippy) + 100. PROGRESS CLAUSE, judged for every episode of every successful case: between the request and the first application there is no run of more than `bound` consecutive loop iterations without input event, without output, without an OS key down and with nothing physically held except reload keys and the scenario's mouse-button / arbitrary-code key. FAILED-FIRST SESSIONS (the indices above the sessions; 240 quick / 3600 thorough): a session of 2-3 episodes as above, but when the first request is made the file it selects holds a broken text: a copy of that file's specification (half of them with other first-layer actions; in the cases that have the key-name dimension - here 3 of 4 - with a deflocalkeys block of its own 4 of 5 times) with a semantic error (3 of 4) or a syntax error. The request must fail (no ConfigFileReload); the file is repaired before the second request (its valid text), which is lrld-num or lrld-file, made from idle or after random typing on the old configuration; that reload and every later one are judged like every episode of a session (fresh instance of the installed file on the same continuation, probe piece included). KEY NAMES (stream of its own, half of all cases, single-episode, failed-reload and sessions alike): three names of the case are drawn from - = [ ] ; ' , . / + 0 9; the pair (old configuration, file of the first request) is block->none (8 of 20), none->block (3), block->other-block (5), block->same-block (2), none->none (2), every other file has a block or not with equal odds; a block maps each name of the case (3 of 4) and each of four names of its own (1 of 4) to one of 15 physical keys that nothing else in the case uses; a third of the configurations also carry 0-4 blocks for the other platforms with other numbers; blocks stand before defcfg or (1 of 3) at the end of the file; each configuration appends to defsrc the names (3 of 4 each, at least one, pairwise different physical keys under its own table) and gives each on the first layer a name (3 of 5) or a letter; 4 of 5 mixed continuations get the probe piece (every physical key any configuration of the case can mean by a name: press, 2-25 ticks, a quarter with a Repeat, a fifth overlapping with the next key, release) first or before the final wait. Non-trivial = case in which the request was made on an accepted old configuration; distinct = (outcome, scenario, request kinds, fault kind, number of files, number of reloads applied), for sessions (failed-first or not; per episode: scenario, request kind, reload key held > 1 s; kind of typing between).".into()
     }
     fn assumptions(&self) -> Vec<String> {
         vec![
@@ -2826,6 +3132,8 @@ impl Check for C15Check {
             "OS key repeats are injected only into continuations (after the idle point that follows a reload, and after a failed reload in both twins), never before or while a request is pending: a Repeat event is an input event, so a key that the OS keeps repeating never lets the one-idle-second fallback start, and the statement does not say whether that is intended. Which key a repeat is forwarded as is not modelled (that is C14); reloaded and fresh instance must agree. Repeat events are also sent for keys that are not the one pressed last and shortly after a release (an OS does not do the former, the latter happens with a queue between OS and kanata); both instances see the same events. The layer that is active when a Repeat arrives is read from the fresh instance (layout.current_layer) only for the evidence counters".into(),
             "progress clause: 'after one idle second' is judged only for runs of loop iterations in which no input event arrives, kanata writes nothing, the OS model has no key down (mouse buttons and arbitrary key codes may be down) and every physically held key is a reload key or the key of the scenario's silent custom action (mouse button, arbitrary-code). Whether a held output key, or a physically held key whose output kanata swallows (hidden sequence input, zippychord, an unmod key while defzippy tracks its output), still counts as idle is not decided by the statement, and the unchanged tree says it does not (the reload then waits for the release): such runs are not judged. Held wheel / movement keys keep producing output and are never idle. The bound is 1000 iterations plus the longest duration the active configuration names plus 100: kanata counts idle iterations only once its own timers (pending tap-hold / tap-dance, caps-word, hold-for-duration, a started sequence, zippychord deadlines) have run out, and none of them is longer than the longest duration written in the configuration (documented defaults: sequence-timeout 1000, zippychord 500). The durations are read from the generated specification, not from kanata".into(),
             "the driver runs can_block_update_idle_waiting + handle_time_ticks every virtual millisecond whether or not kanata would block; while a request is pending kanata never blocks (it counts idle iterations), so the iterations of a pending request are exactly the ones the real loop makes".into(),
+            "key names: a freshly started kanata is a new process, whose key-name table is the default one; the harness runs many instances per process, so before every instance that stands for a start-up (the run itself, the no-request twin, the fresh instances) the table is reset through kanata_parser::keys::replace_custom_str_oscode_mapping with an empty map (public API; yields the defaults). The reload itself is never helped in this way. Fresh instances are built only after the run with the reload has finished. What a name means is never predicted for the oracle (reloaded vs fresh instance of the real code); the small model in c15_lk.rs (block entry, else the code the guide gives the name) only keeps generated files acceptable (no physical key twice in defsrc) and feeds the evidence counters and the signature split. Names that the rest of the generator or the harness' own history rendering uses (letters, 1-8, modifiers) are never redefined. A broken file is parsed up to its error, so its deflocalkeys block may already have rewritten the table when the reload fails: single-episode failed reloads of such files are compared with the no-request twin, failed-first sessions follow them with a successful reload that is compared with a fresh instance".into(),
+            "failed-first sessions: the first request selects a file that holds a broken text (another specification than the file's valid one, with a semantic error - unknown alias, bad tap-hold, layer of the wrong length, unknown layer - or a syntax error); it must not be applied (no ConfigFileReload). What the old configuration does after the failure is judged by the single-episode failed-reload cases, not here (a session has no no-request twin): nothing is typed until the next request except that request's own pre-state. The file is then repaired (its valid text is written) and the second request names its file absolutely (lrld-num / lrld-file): kanata moves its file index when a relative request is made, whether or not the reload then succeeds, and the statement does not say which file a relative request selects after a failed one. From there on the session is judged like any other; the second episode's bound of the progress clause comes from the old configuration, which is still the active one".into(),
             "lrld-num is only generated with a number that names an existing file (the guide does not say what an out-of-range number does)".into(),
             "recorded dynamic macros and clipboard slots are kept across reloads on purpose and are not exercised".into(),
             "what the continuation reaches of a feature that differs between old and new file is reported by the evidence counters (zippy_pair:*, old_chord_typed_after_reload_*, sequence_typed_after_reload_*, virtual_key_operated_after_reload_*, reload_changes_option:*); chords, sequences and dictionaries of the old configuration are written in the letters the reloaded file types, so a table that survives the reload shows in the comparison with the fresh instance".into(),
@@ -2923,6 +3231,29 @@ impl Check for C15Check {
             ("reload_into_file_with_more_layers", 400),
             ("reload_into_file_with_fewer_layers", 200),
             ("failed_reload:forwarded_os_repeats_compared_with_no_request_twin", 1500),
+            // key names: deflocalkeys blocks differ between the configuration before the reload and
+            // the reloaded file, the reloaded file uses the names, the continuation taps the keys
+            ("localkeys_pair:block->none", 200),
+            ("localkeys_pair:none->block", 90),
+            ("localkeys_pair:block->other-block", 140),
+            ("localkeys_pair:block->same-block", 100),
+            ("localkeys_pair:none->none", 120),
+            ("localkeys_pair_in_later_episode:block->none", 10),
+            ("localkeys:reloads_that_change_the_meaning_of_a_name_the_new_file_uses", 400),
+            ("localkeys:name_redefined_by_previous_file_used_by_new_file_without_block", 180),
+            ("localkeys:name_redefined_by_previous_file_used_but_not_defined_by_new_block", 40),
+            ("localkeys:such_reloads_followed_by_probe_of_every_key_a_name_can_mean", 250),
+            ("localkeys:probe_taps_compared_with_fresh", 2500),
+            ("localkeys:reloaded_file_has_blocks_for_other_platforms", 150),
+            ("localkeys:failed_reload_of_broken_file_with_deflocalkeys_block", 70),
+            // sessions whose first request fails; the file is repaired, the next reload must equal
+            // a fresh instance
+            ("failed_first_sessions", 200),
+            ("failed_first_sessions:fault:semantic-error", 120),
+            ("failed_first_sessions:fault:syntax-error", 25),
+            ("failed_first_sessions:successful_reload_after_the_failed_one_compared_with_fresh", 150),
+            ("failed_first_sessions:broken_file_has_deflocalkeys_block_and_fails_after_it", 60),
+            ("failed_first_sessions:broken_file_had_deflocalkeys_block_then_file_without_block_reloaded", 20),
         ]
     }
     fn watchdog_s(&self, _ctx: &Ctx) -> u64 {
